@@ -220,3 +220,22 @@ pub fn count_distinct(mut v: Vec<u64>) -> u64 {
     v.dedup();
     v.len() as u64
 }
+
+/// Runs `f` on a brand-new thread (fresh thread-locals), so that a case consisting of a call SEQUENCE is reproducible
+/// on its own: used by the history checks that look for state carried over between calls.
+pub fn in_fresh_thread<T: Send + 'static>(f: impl FnOnce() -> T + Send + 'static) -> T {
+    std::thread::Builder::new().stack_size(1 << 20).spawn(f).expect("spawn").join().expect("history worker panicked (machinery)")
+}
+
+/// When set, the I/O case runners execute every case on a fresh thread (slow, but each case is then independent of
+/// the cases enumerated before it and replays on its own). The checks enumerate directly first and switch this on
+/// only when that pass found a violation, and always for replays.
+pub static ISOLATE_CASES: std::sync::atomic::AtomicBool = std::sync::atomic::AtomicBool::new(false);
+
+pub fn maybe_isolated<T: Send + 'static>(f: impl FnOnce() -> T + Send + 'static) -> T {
+    if ISOLATE_CASES.load(std::sync::atomic::Ordering::Relaxed) {
+        in_fresh_thread(f)
+    } else {
+        f()
+    }
+}
